@@ -600,6 +600,8 @@ func TestProp(t *testing.T) {
 		return
 	}
 	defer r.Finish()
+	var pool evid.Pool[Case] // rapid-drawn cases, evaluated side by side once more at the end
+	defer func() { evid.Concurrent(r, &pool, 16, Eval) }()
 	if err := refcheck.All(); err != nil {
 		r.Inconclusive("reference self-test failed: %v", err)
 		return
@@ -612,7 +614,11 @@ func TestProp(t *testing.T) {
 		c.Reqs = []Req{drawReq(t, rapid.Uint64().Draw(t, "seed"), rapid.SampledFrom(ref.ETypes).Draw(t, "etype"), false)}
 		count(r, c, "request")
 		r.Sample("request/"+c.Reqs[0].Header+"/"+c.Reqs[0].Framing+"/"+c.Reqs[0].Inner, c)
-		if r.Judge("request", c, Eval(c)) {
+		v := Eval(c)
+		if v.OK {
+			pool.Add("request", c)
+		}
+		if r.Judge("request", c, v) {
 			t.Fatalf("violation")
 		}
 	})
@@ -635,7 +641,11 @@ func TestProp(t *testing.T) {
 		}
 		count(r, c, "history")
 		r.Sample("history/"+c.SessionMgr, c)
-		if r.Judge("history", c, Eval(c)) {
+		v := Eval(c)
+		if v.OK {
+			pool.Add("history", c)
+		}
+		if r.Judge("history", c, v) {
 			t.Fatalf("violation")
 		}
 	})
